@@ -9649,6 +9649,31 @@ let sql_reopen_cfg h igs igd =
     q_sess = O; q_max = h.q_cfg_max; q_igs = igs; q_igd = igd; q_cfg_max =
     h.q_cfg_max }
 
+(** val has_dup_rows : row list -> bool **)
+
+let rec has_dup_rows = function
+| [] -> false
+| r :: rest ->
+  (||) (existsb (same_key r.r_sess r.r_entry) rest) (has_dup_rows rest)
+
+(** val sql_set_dups : sqlh -> bool -> sqlh * bool **)
+
+let sql_set_dups h yes =
+  if eqb h.q_igd yes
+  then (h, true)
+  else if (&&) yes (has_dup_rows h.q_rows)
+       then (h, false)
+       else ({ q_rows = h.q_rows; q_nsess = h.q_nsess; q_cache = h.q_cache;
+              q_sess = h.q_sess; q_max = h.q_max; q_igs = h.q_igs; q_igd =
+              yes; q_cfg_max = h.q_cfg_max }, true)
+
+(** val sql_set_space : sqlh -> bool -> sqlh **)
+
+let sql_set_space h yes =
+  { q_rows = h.q_rows; q_nsess = h.q_nsess; q_cache = h.q_cache; q_sess =
+    h.q_sess; q_max = h.q_max; q_igs = yes; q_igd = h.q_igd; q_cfg_max =
+    h.q_cfg_max }
+
 type sop =
 | SAdd of str
 | SGet of nat * sdir
@@ -9656,12 +9681,15 @@ type sop =
 | SSetMax of nat
 | SReopen
 | SReopenCfg of bool * bool
+| SSetDups of bool
+| SSetSpace of bool
 
 type sout =
 | SoBool of bool
 | SoGet of (nat * str) option
 | SoNat of nat
 | SoUnit
+| SoRefused
 
 (** val sql_step : uData -> sqlh -> sop -> sqlh * sout **)
 
@@ -9672,6 +9700,10 @@ let sql_step u h = function
 | SSetMax n0 -> ((sql_set_max h n0), SoUnit)
 | SReopen -> ((sql_reopen h), SoUnit)
 | SReopenCfg (igs, igd) -> ((sql_reopen_cfg h igs igd), SoUnit)
+| SSetDups yes ->
+  let (h', ok) = sql_set_dups h yes in
+  (h', (if ok then SoUnit else SoRefused))
+| SSetSpace yes -> ((sql_set_space h yes), SoUnit)
 
 (** val sql_run : uData -> sqlh -> sop list -> sqlh * sout list **)
 
